@@ -31,7 +31,10 @@ func init() {
 			in, _ := encGeom(g, intFn)
 			e := map[string]interface{}{"k": "map", "in": in, "nt": 1}
 			calls := 0
-			f := func(p orb.Point) orb.Point { calls++; return orb.Point{1000 - p[0], float64(calls)} }
+			f := func(p orb.Point) orb.Point {
+				calls++
+				return orb.Point{1000 - p[0] + 7*p[1], float64(100*calls) + 2*p[0] + p[1]}
+			}
 			setCurrent("project.Geometry", in)
 			var out orb.Geometry
 			typed := c.rng.Intn(2) == 0
@@ -189,6 +192,17 @@ func init() {
 		}
 		for i := 0; i < c.pick(3000, 60000); i++ {
 			rt(c.rng.Float64()*360-180, c.rng.Float64()*170.1-85.05)
+		}
+		// every magnitude: latitudes and longitudes from 1e-7 degree upwards (log-uniform), and latitudes approaching the
+		// limit of the mercator square from below - a formula may be replaced by a cheaper one on part of the domain
+		for i := 0; i < c.pick(3000, 60000); i++ {
+			sgn := func() float64 { return float64(1 - 2*c.rng.Intn(2)) }
+			lat := sgn() * math.Min(85.05, math.Pow(10, c.rng.Float64()*9-7))
+			lon := sgn() * math.Min(180, math.Pow(10, c.rng.Float64()*9.3-7))
+			if i%5 == 0 {
+				lat = sgn() * (85.05 - math.Pow(10, c.rng.Float64()*8-7))
+			}
+			rt(lon, lat)
 		}
 		anchor := func(name string, got, want int) {
 			c.emit(map[string]interface{}{"k": "anchor", "name": name, "got": got, "want": want, "nt": 1})
